@@ -144,11 +144,16 @@ Revert(c, x, oid) ==
          IF IsFiltering(x) /\ c.t = x.t /\ (Len(x.segs) = 0 \/ x.segs[Len(x.segs)].obs = NoObs)
          THEN << O(c, x, oid), U(c, x, oid) >>
          ELSE << Err("revert: observation model applied at the wrong time or twice"), Err("revert") >>
+    [] c.k = "L" /\ x.k = "M" ->
+         IF c.t = TimeOf(x) THEN << O(c, x, oid), U(c, x, oid) >>
+         ELSE << Err("revert: observation model at the wrong time"), Err("revert") >>
     [] OTHER -> << Err("revert: undefined"), Err("revert: undefined") >>
 
 \* condition on the (zero) datum
 ApplyData(c, isZero) ==
-  IF c.k = "U" /\ isZero
+  IF c.k = "U" /\ isZero /\ c.of.k = "M"
+  THEN [k |-> "PM", j |-> c.j, of |-> c.of, oid |-> c.oid]      \* the mean-only extrapolation conditioned on the datum
+  ELSE IF c.k = "U" /\ isZero
   THEN LET x == c.of
            ob == [o |-> c.oid, lin |-> LinKind(c.j, x)]
        IN IF Len(x.segs) = 0
